@@ -727,6 +727,11 @@ TARGETED = [
     # RAM update_*_operation on a missing operation (recorded finding)
     [['create_study', 's1', 0], ['create_sop_next', 's1', 'c1'], ['update_sop', 's1', 'c1', 2, True], ['list_sops', 's1', 'c1', False]],
     [['create_study', 's1', 0], ['update_eop', 's1', 1, 1], ['get_eop', 's1', 1]],
+    # more than nine suggestion operations of one client (operation ids are strings: '.../10' sorts before '.../9')
+    [['create_study', 's1', 0]] + [['create_sop', 's1', 'c1', n] for n in range(1, 11)] + [['max_sop', 's1', 'c1'], ['create_sop_next', 's1', 'c1'],
+                                                                                            ['max_sop', 's1', 'c1'], ['list_sops', 's1', 'c1', False]],
+    [['create_study', 's1', 0]] + [['create_sop_next', 's1', 'c1'] for _ in range(12)] + [['get_sop', 's1', 'c1', 12], ['update_sop', 's1', 'c1', 11, True],
+                                                                                           ['list_sops', 's1', 'c1', True]],
     # trial id gaps, order of listings after delete + re-insert
     [['create_study', 's1', 0], ['create_trial', 's1', 1, 0], ['create_trial', 's1', 3, 0], ['delete_trial', 's1', 1], ['create_trial', 's1', 1, 1], ['list_trials', 's1'], ['max_trial_id', 's1']],
     [['create_study', 's1', 0], ['create_study', 's2', 0], ['delete_study', 's1'], ['create_study', 's1', 1], ['list_studies', 'o'], ['update_study', 's2', 1], ['list_studies', 'o']],
@@ -772,8 +777,16 @@ def summarise(divs, notes, n_seq, t0, extra=None):
     return res
 
 
+def allow_deviations(p):
+    """only the deviations named in the payload (= findings still open in known_findings.d) may explain a divergence."""
+    if 'deviations' in p:
+        for b in list(DEVIATIONS):
+            DEVIATIONS[b] = [d for d in DEVIATIONS[b] if d in p['deviations']]
+
+
 def explore(p):
     t0 = time.time()
+    allow_deviations(p)
     backends = p.get('backends') or ['ram', 'sql_mem', 'sql_file']
     A = alphabet(p.get('alphabet', 'quick'))
     maxlen = int(p.get('maxlen', 3))
@@ -815,6 +828,7 @@ def explore(p):
 
 def run(p):
     t0 = time.time()
+    allow_deviations(p)
     backends = p.get('backends') or ['ram', 'sql_mem', 'sql_file']
     divs, notes = [], []
     trace = []
